@@ -11,6 +11,7 @@ import (
 	"fmt"
 	"os"
 	"strings"
+	"time"
 
 	"verifharness/e2e"
 	"verifharness/lib"
@@ -19,7 +20,7 @@ import (
 func main() {
 	lib.Main("C03", func(c *lib.Ctx) {
 		c.Model("From PlzV Require Import Model.Engine.", "Engine.case", "Engine.check")
-		c.Rule("generated repositories (1-2 packages, 2-6 targets: genrules concat/const/copydir/listnames, filegroups, text_files) with edit histories " +
+		c.Rule("generated repositories (1-2 packages, 2-6 targets: genrules concat/const/copydir/listnames and, in every other history, output_dirs targets; filegroups, text_files) with edit histories " +
 			"(content edits, rewrites with identical content, renames inside output directories, srcs/outs/cmd changes, comments, unused files, added/removed targets, " +
 			"rm -rf plz-out, going back to an earlier tree); every tree is built twice in a row by the real plz; the executed commands come from an action log " +
 			"outside the repository. distinct = distinct histories; non-trivial = at least two steps changed the tree")
@@ -27,12 +28,21 @@ func main() {
 		defer os.RemoveAll(base)
 		n := c.Scale(9, 300)
 		steps := c.Scale(4, 7)
+		corpusWitness(c, base)
 		all := e2e.EngRunHistories(c.Rng, base, n, 8, func(i int) e2e.EngOpts {
-			return e2e.EngOpts{MaxPkgs: 2, MaxTargets: 6, Steps: steps, CleanRef: true, Rebuild: true, PWipe: 6, PRevert: 12, PNoop: 4, DirHeavy: i%3 == 0}
+			return e2e.EngOpts{MaxPkgs: 2, MaxTargets: 6, Steps: steps, CleanRef: true, Rebuild: true, PWipe: 6, PRevert: 12, PNoop: 4, DirHeavy: i%3 == 0, OutDirs: i%2 == 1}
 		})
 		for i, h := range all {
 			changed := 0
 			var prev *e2e.EngStep
+			timedOut := false
+			for k := range h {
+				timedOut = timedOut || h[k].TimedOut || h[k].Exit == -9 || h[k].CleanExit == -9
+			}
+			if timedOut { // a plz invocation was killed by the harness timeout (overloaded machine): no verdict
+				c.Hist("edit", "timed-out")
+				continue
+			}
 			for k := range h {
 				st := &h[k]
 				c.Hist("edit", st.Edit.Kind)
@@ -62,6 +72,52 @@ func main() {
 			c.Case(e2e.EngCaseTerm(h), histJSON(i, h, len(h)-1), e2e.EngKey(h), changed >= 2)
 		}
 	})
+}
+
+// corpusWitness: /verif/corpus/C03/prefixed_hashes_output_dirs.BUILD - a target with output_dirs and a prefixed
+// hash ("sha1: ..."), the input on which UnprefixedHashes used to strip the prefixes of target.Hashes in place
+// (fixed in /repo 72ca340): the post-build rule hash then differed from the recorded one and the SECOND build of
+// the unchanged tree re-ran the command. Built twice (three times) here; the later builds must be no-ops.
+func corpusWitness(c *lib.Ctx, base string) {
+	dir := os.Getenv("VERIF_DIR")
+	if dir == "" {
+		dir = "/verif"
+	}
+	text, err := os.ReadFile(dir + "/corpus/C03/prefixed_hashes_output_dirs.BUILD")
+	if err != nil {
+		panic(err)
+	}
+	repo := e2e.NewRepo(base, "corpus")
+	repo.Write(&e2e.Spec{Pkgs: map[string]*e2e.Pkg{}})
+	build := strings.Replace(string(text), `cmd = "`, `cmd = "echo //p:t >> `+repo.LogPath+` && `, 1)
+	if build == string(text) {
+		panic("corpus witness: no cmd to instrument")
+	}
+	os.MkdirAll(repo.Dir+"/p", 0o755)
+	if err := os.WriteFile(repo.Dir+"/p/BUILD", []byte(build), 0o644); err != nil {
+		panic(err)
+	}
+	js := map[string]any{"corpus": "C03/prefixed_hashes_output_dirs.BUILD", "BUILD": build}
+	for i := 0; i < 3; i++ {
+		res := repo.Run(90*time.Second, "build", "//p:t")
+		if res.TimedOut {
+			c.Hist("edit", "timed-out")
+			return
+		}
+		c.Hist("edit", "corpus-witness")
+		c.Eval(js, fmt.Sprint("corpus", i), i > 0)
+		c.Oracle()
+		if res.Exit != 0 {
+			c.Fail("corpus-witness-build-fails", fmt.Sprintf("build %d of the output_dirs + prefixed hash witness: exit %d: %s", i+1, res.Exit, res.Stderr), js)
+			return
+		}
+		if i == 0 && len(res.Executed) != 1 {
+			c.Fail("corpus-witness-build-fails", fmt.Sprintf("first build executed %v", res.Executed), js)
+		}
+		if i > 0 && len(res.Executed) > 0 {
+			c.Fail("second-build-not-a-noop", fmt.Sprintf("build %d of the unchanged output_dirs + prefixed hash witness executed %v", i+1, res.Executed), js)
+		}
+	}
 }
 
 // allowed says why the command of label may run at step st (previous build: prev), or "" if nothing it reads changed.
